@@ -46,6 +46,7 @@ def gen(rng, tier):
         for L in (2048, 4095, 4096, 255 * 20, 65536):
             add("single", "sets %d:%s" % (rng.randrange(256), rb(rng, L)))
         nseq, nparse = 6000, 6000
+    add("seq", "sets 1:%s 2:%s 1:%s" % (rb(rng, 3000), rb(rng, 3000), rb(rng, 700)))
     for L in (1, 2, 5, 255, 256, 300):
         for z in (1, 2):
             add("single", "sets %d:%s" % (rng.choice(tags_small), rb(rng, L - z if L > z else 0) + "00" * min(z, L)))
@@ -158,6 +159,8 @@ def outcome_class(c, obs):
 def oracle(c, obs):
     """the property's own predicate, evaluated on what the implementation did"""
     kind, x = parse_line(c["line"])
+    if " piecewise=" in obs:
+        return "the same bytes arriving in pieces (one byte / half of what is asked for per read) do not parse to the same container: " + obs.split(" piecewise=")[1][:40]
     if "/str:" in obs:
         return "GetString of a tag is not the bytes GetBytes returns for it: " + [t for t in obs.split(" ") if "/str:" in t][0][:80]
     if obs.startswith("panic") or obs.startswith("DRIVER-DIED") or obs == "NO-OUTPUT":
